@@ -110,16 +110,19 @@ def impl_only_collect(rep, scripts, oracle_props, label):
 
 
 def sim_check(prop, tier, seed, gen_kwargs_list, n_quick, n_thorough, oracle_props=None, extra_assumptions=(),
-              rule_extra="", settle=True, known_ids=(), custom_scripts=None, model_name="RV.Repl.Sys", impl_only_scripts=None, impl_only_label="hierarchy"):
+              rule_extra="", settle=True, known_ids=(), custom_scripts=None, model_name="RV.Repl.Sys", impl_only_scripts=None, impl_only_label="hierarchy",
+              extra_bins=(), extra_oracle=None):
     rep = Report(prop, tier, seed)
     rng = random.Random(seed)
-    proofs_ok, ready = prepare(rep, bins=("sim",))
+    proofs_ok, ready = prepare(rep, bins=("sim",) + tuple(extra_bins))
     if not ready:
         return rep.finish()
     oracle_fail, diverged = sim_collect(rep, prop, tier, rng, seed, gen_kwargs_list, n_quick, n_thorough, oracle_props, extra_assumptions,
                                         rule_extra, settle, known_ids, custom_scripts, top_level=True)
     if impl_only_scripts:
         oracle_fail = oracle_fail + impl_only_collect(rep, impl_only_scripts(rng, tier), oracle_props or {prop}, impl_only_label)
+    if extra_oracle:
+        oracle_fail = oracle_fail + extra_oracle(rep, rng, tier)
     return sim_conclude(rep, prop, proofs_ok, oracle_fail, diverged, model_name)
 
 
